@@ -8,7 +8,7 @@ EXPLANATION = (
     "(R-BRACKET) every constructor of `[` child `]` (index, table key, Luau type indexer) tests for a long-bracket "
     "string and spaces it; (R-SEMI) check_stmt_requires_semicolon covers every statement kind that ends with an "
     "expression x every kind that can start with `(`; (R-SYM) every literal written by fmt_symbol!/fmt_op!/"
-    "TokenReference::symbol is a valid symbol, newline free, and is the lexeme of the token it replaces. Not decided: "
+    "TokenReference::symbol is a valid symbol, newline free, and is the lexeme of the token it replaces. (R-COLLAPSE) the single-line `if` and the collapsed function body are chosen only after every token that would be followed by more text on the line was tested for comments. Not decided: "
     "that a trailing line comment is always followed by a newline on every layout (layout dependent); the optional "
     "built-in re-parse.")
 ASSUMPTIONS = ["Lua lexical facts: `--` starts a comment, `[[` opens a long bracket, a statement starting with `(` "
@@ -18,4 +18,4 @@ ASSUMPTIONS = ["Lua lexical facts: `--` starts a comment, `[[` opens a long brac
 
 def run(ctx):
     return [r_paren.rule_paren(ctx, "C01", parts=("minus",)), r_tree.rule_bracket(ctx, "C01"),
-            r_tree.rule_semi(ctx, "C01"), r_tree.rule_sym(ctx, "C01")]
+            r_tree.rule_semi(ctx, "C01"), r_tree.rule_sym(ctx, "C01"), r_tree.rule_collapse(ctx, "C01")]
